@@ -201,6 +201,7 @@ void
     /* -------------------------
        Main loop: repeatedly ...
        ------------------------- */
+    SLU_MT_VEV(VE_LOOP_CHECK, pnum, 0, &pxgstrf_shared->tasks_remain);
     while ( pxgstrf_shared->tasks_remain > 0 ) {
         
 #ifdef PROFILE
@@ -222,8 +223,10 @@ void
 	Gstat->procstat[pnum].skedtime += t2;	    
 #endif
 	    
+	if ( jcol == EMPTY ) SLU_MT_VEV(VE_SCHED_EMPTY, pnum, 0, 0);
 	if ( jcol != EMPTY ) {
 	    w = pxgstrf_shared->pan_status[jcol].size;
+	    SLU_MT_VEV(VE_PANEL_BEGIN, pnum, jcol, bcol);
 
 #if ( DEBUGlevel>=3 )
 	    printf("P%2d got panel %5d-%5d\ttime %.4f\tpanels_left %d\n",
@@ -258,6 +261,7 @@ void
 		}
 
 		/* Release the whole relaxed supernode */
+		SLU_MT_VEV(VE_RELEASE, pnum, jcol, w);
 		for (jj = jcol; jj < jcol + w; ++jj) 
 		    pxgstrf_shared->spin_locks[jj] = 0;
 #ifdef PREDICT_OPT
@@ -315,6 +319,7 @@ void
 #endif
 		/* Inner-factorization, using sup-col algorithm */
 		for ( jj = jcol; jj < jcol + w; jj++) {
+		    SLU_MT_VEV(VE_COL_BEGIN, pnum, jj, jcol);
 		    k = (jj - jcol) * m; /* index into w-wide arrays */
 		    nseg = nseg1; /* begin after all the panel segments */
 #ifdef PROFILE
@@ -361,6 +366,7 @@ void
 
                     /* release column "jj", so that the other processes
                        waiting for this column can proceed */
+		    SLU_MT_VEV(VE_RELEASE, pnum, jj, 1);
 		    pxgstrf_shared->spin_locks[jj] = 0;
 		    
 		    /* copy the U-segments to ucol[*] */
@@ -390,6 +396,7 @@ void
 		
 	    } /* else regular panel ... */
 	    
+	    SLU_MT_VEV(VE_PANEL_DONE, pnum, jcol, &STATE( jcol ));
 	    STATE( jcol ) = DONE; /* Release panel jcol. */
 	    
 #ifdef PROFILE
@@ -409,8 +416,10 @@ void
 	}
 #endif
 	
+        SLU_MT_VEV(VE_LOOP_CHECK, pnum, 1, &pxgstrf_shared->tasks_remain);
     } /* while there are more panels */
 
+    SLU_MT_VEV(VE_THREAD_EXIT, pnum, singular, 0);
     *info = singular;
 
     /* Free work space and compress storage */
